@@ -192,10 +192,12 @@ def forEach (f : Id → DM Unit) : List Id → DM Unit
   | x :: r => do f x; forEach f r
 
 /-- the element nodes of the subtree of `n`, or RecursionError -/
-def walk (n : Id) : DM (List Id) := do
-  match (← rdD fun s => elemsUnder s.heap n) with
-  | some l => pure l
-  | none => raiseD .RecursionError
+def walkResult (s : DState) (n : Id) : DState × Except Err (List Id) :=
+  match elemsUnder s.heap n with
+  | some l => (s, .ok l)
+  | none => (s, .error .RecursionError)
+
+def walk (n : Id) : DM (List Id) := fun s => walkResult s n
 
 /-! ### _set_owner -/
 
